@@ -1275,6 +1275,9 @@ func cmdReplay(a []string) int {
 	}
 	var spec Spec
 	json.Unmarshal(sb, &spec)
+	if v := os.Getenv("VERIF_REPO_ROOT"); v != "" {
+		spec.PackageDir = strings.Replace(spec.PackageDir, "/repo", v, 1)
+	}
 	tmp, _ := os.MkdirTemp("", "verif-replay-")
 	defer os.RemoveAll(tmp)
 	fails, assumeBad, out, err := nativeReplayFile(&spec, filepath.Join(p, "replay.json"), tmp)
